@@ -335,6 +335,7 @@ def run(F, res, tier):
     string_escapes(F, res)
     from rules import c01 as _c01
     _c01.lexer_bump_unit(F, res, rule="G10")   # a string with a non-ASCII character is one STRING token: the callback advances by bytes
+    _c01.leaves_start_with_their_token(F, res, rule="G11")
     delimiters_belong_to_their_node(F, res)
 
 
